@@ -2,7 +2,7 @@
 running TLC (model checking and trace validation), known-findings handling, evidence files."""
 import json, os, re, subprocess, sys, time, shutil, glob, concurrent.futures
 
-VERIF = "/verif"
+VERIF = os.environ.get("VERIF_ROOT", "/verif")   # (a scratch copy for development sets VERIF_ROOT; registered commands never do)
 SPEC = f"{VERIF}/spec"
 HARNESS = f"{VERIF}/harness"
 WORK = f"{VERIF}/work"
